@@ -1,0 +1,7 @@
+//go:build !verif
+
+package j2t
+
+import "github.com/cloudwego/dynamicgo/internal/native/types"
+
+func verifStep(fsm *types.J2TStateMachine, buf *[]byte, ret uint64, start int) {}
